@@ -30,6 +30,25 @@ for cfg, prog in facts.load_many(list(facts.CONFIGS)).items():
         cn.add(c["path"])
 json.dump(sorted(cn), open(os.path.join(os.path.dirname(os.path.abspath(__file__)), "sa", "ref_constnames.json"), "w"), indent=0)
 print(len(cn), "constant names")
+ln = {}
+for cfg, prog in facts.load_many(list(facts.CONFIGS)).items():
+    for path, fs in prog.by_path.items():
+        if len(fs) == 1:
+            ln.setdefault(path, {})[cfg] = sorted({l["name"] for l in fs[0].locals if l.get("name")})
+for p, per in ln.items():
+    if len({tuple(v) for v in per.values()}) == 1:
+        ln[p] = {"*": next(iter(per.values()))}
+json.dump({p: v for p, v in sorted(ln.items())}, open(os.path.join(os.path.dirname(os.path.abspath(__file__)), "sa", "ref_locals.json"), "w"), indent=0)
+print(len(ln), "functions with named locals")
+from sa import orient as _orient
+ot = {}
+for cfg, prog in facts.load_many(list(facts.CONFIGS)).items():
+    for f in prog.fns:
+        for k, ways in _orient.table(f).items():
+            ot.setdefault(f.path, {}).setdefault(k, set()).update(ways)
+json.dump({p: {k: sorted(w) for k, w in sorted(t.items())} for p, t in sorted(ot.items())},
+          open(os.path.join(os.path.dirname(os.path.abspath(__file__)), "sa", "ref_orient.json"), "w"), indent=0)
+print(sum(len(t) for t in ot.values()), "oriented comparisons / commutative operations in", len(ot), "functions")
 from sa import rename as _rename
 rsig = {}
 for cfg, prog in facts.load_many(list(facts.CONFIGS)).items():
